@@ -254,6 +254,19 @@ func TestC16(t *testing.T) {
 		cse := &c16Case{Docs: docs, Crit: crit}
 		if !wide && rapid.Bool().Draw(rt, "indexed") {
 			cse.Index = rapid.SampledFrom([]string{"x", "y", "n.a", "s", "u", "xy"}).Draw(rt, "index")
+			// mostly an index on a field the criteria compare, so that the planner derives ranges
+			var used []string
+			crit.Walk(func(x *cs.Crit) {
+				switch x.Op {
+				case "eq", "neq", "gt", "gte", "lt", "lte":
+					if x.Field != "_id" && x.Field != "zz" {
+						used = append(used, x.Field)
+					}
+				}
+			})
+			if len(used) > 0 && rapid.IntRange(0, 4).Draw(rt, "index-used-field") != 0 {
+				cse.Index = rapid.SampledFrom(used).Draw(rt, "index-used")
+			}
 		}
 		if f := runC16(cse); f != nil {
 			violate(rt, "C16", "c16", cse, f)
